@@ -21,21 +21,27 @@ def h_of(host):
 
 
 class PeerRun:
-    def __init__(self, world, genesis, initial, tid, clock0=1000):
+    def __init__(self, world, genesis, initial, tid, clock0=1000, early_traffic=None):
+        """early_traffic(run): what the network thread does right after the node came up (an incoming connection from a listed peer, its
+        greeting, the dial-back ...).  It is played when the start-up path reads the peer list if the thread has been started by then,
+        otherwise right after the constructor: the same events in the same order either way."""
         import skepticoin.networking.local_peer as lp
         import skepticoin.networking.disk_interface as di
+        from skepticoin.networking.remote_peer import DisconnectedRemotePeer
         self.tid = tid
         self.dir = tempfile.mkdtemp(prefix="peers_", dir=sk.scratch())
         self.cwd = os.getcwd()
         os.chdir(self.dir)
         cs = world.T["CoinState"].empty().add_block_no_validation(genesis)
         self.clock = fakenet.Clock(clock0)
-        self.node = fakenet.Node(cs, genesis, clock=self.clock, real_store=False, port=2412)
-        real_di = di.DiskInterface()
-        self.node.disk.write_peers = real_di.write_peers          # the real file writer, peers.json in this run's directory
         self.socks = {}            # key tuple -> FakeSocket
         self.new_socks = []
+        self.events = []
+        self.mid = 10
+        self.unreachable = set()      # abstract host numbers
+        self.initial = [dict(h=h, p=p, d="OUTGOING") for (h, p) in initial]
         run = self
+        played = []
 
         class SockShim:
             AF_INET, SOCK_STREAM = 2, 1
@@ -50,14 +56,21 @@ class PeerRun:
         self._orig_socket = lp.socket
         lp.socket = SockShim
         self.lp = lp
-        from skepticoin.networking.remote_peer import DisconnectedRemotePeer
-        nm = self.node.local.network_manager
-        self.initial = [dict(h=h, p=p, d="OUTGOING") for (h, p) in initial]
-        nm.disconnected_peers = {(host_of(h), p, "OUTGOING"): DisconnectedRemotePeer(host_of(h), p, "OUTGOING", None, ban_score=0)
-                                 for (h, p) in initial}
-        self.events = []
-        self.mid = 10
-        self.unreachable = set()      # abstract host numbers
+
+        def on_load(node):
+            if node.thread_started and early_traffic is not None and not played:
+                played.append(1)
+                run.node = node
+                real_di0 = di.DiskInterface()
+                node.disk.write_peers = real_di0.write_peers
+                early_traffic(run)
+            return {(host_of(h), p, "OUTGOING"): DisconnectedRemotePeer(host_of(h), p, "OUTGOING", None, ban_score=0) for (h, p) in initial}
+        self.node = fakenet.Node(cs, genesis, clock=self.clock, real_store=False, port=2412, on_load_peers=on_load)
+        real_di = di.DiskInterface()
+        self.node.disk.write_peers = real_di.write_peers          # the real file writer, peers.json in this run's directory
+        if early_traffic is not None and not played:
+            played.append(1)
+            early_traffic(self)
 
     def key_of(self, peer):
         return dict(h=h_of(peer.host), p=peer.port if isinstance(peer.port, int) else 0, d=peer.direction)
